@@ -20,11 +20,11 @@ Record pblk := mkP { p_jt : list name; p_be : list name; p_kind : pkind }.
 Definition pgraph := list (name * pblk).
 Definition store := list (name * pgraph).
 
-Inductive perr := EKey | EAssert | ERuntime | EFuel | EIndex.
-Inductive res (A : Type) := Ok (a : A) | Err (e : perr).
-Arguments Ok {A}. Arguments Err {A}.
-Definition bind {A B} (r : res A) (f : A -> res B) : res B :=
-  match r with Ok a => f a | Err e => Err e end.
+Inductive perr := EKey | EAssert | ERuntime | EFuel | EIndex | EStop.
+Inductive pres (A : Type) := POk (a : A) | PErr (e : perr).
+Arguments POk {A}. Arguments PErr {A}.
+Definition bind {A B} (r : pres A) (f : A -> pres B) : pres B :=
+  match r with POk a => f a | PErr e => PErr e end.
 Notation "'do' x <- r ; k" := (bind r (fun x => k)) (at level 200, x pattern, r at level 100, k at level 200).
 
 Record pst := mkS {
@@ -60,21 +60,21 @@ Definition gget (g : pgraph) (x : name) : option pblk := zassoc x g.
 Definition gkeys (g : pgraph) : list name := map fst g.
 Definition pjts (b : pblk) : list name := filter (fun t => negb (zmem t (p_be b))) (p_jt b).
 
-Definition sget (s : pst) (r : name) : res pgraph :=
-  match zassoc r (s_store s) with Some g => Ok g | None => Err EKey end.
+Definition sget (s : pst) (r : name) : pres pgraph :=
+  match zassoc r (s_store s) with Some g => POk g | None => PErr EKey end.
 Definition sput (s : pst) (r : name) (g : pgraph) : pst := mkS (dset (s_store s) r g) (s_gen s) (s_parent s).
 
 Definition is_pregion (b : pblk) : bool := match p_kind b with PRegion _ _ _ => true | _ => false end.
 
 (* BasicBlock.replace_jump_targets, with the value-table rewrite for branching blocks *)
-Definition p_replace_jt (b : pblk) (jt : list name) : res pblk :=
+Definition p_replace_jt (b : pblk) (jt : list name) : pres pblk :=
   match p_kind b with
   | PLeaf k =>
     match replace_jt (mkE (p_jt b) (p_be b) k) jt with
-    | Some e => Ok (mkP (e_jt e) (e_be e) (PLeaf (e_kind e)))
-    | None => Err EAssert
+    | Some e => POk (mkP (e_jt e) (e_be e) (PLeaf (e_kind e)))
+    | None => PErr EAssert
     end
-  | _ => Ok (mkP jt (p_be b) (p_kind b))
+  | _ => POk (mkP jt (p_be b) (p_kind b))
   end.
 
 Definition rename (old new : name) (l : list name) : list name :=
@@ -82,32 +82,32 @@ Definition rename (old new : name) (l : list name) : list name :=
 
 (* transformations.update_exiting: rename old -> new in the targets and back edges of
    the exiting block of region r, recursively through nested exiting regions *)
-Fixpoint update_exiting (fuel : nat) (s : pst) (r : name) (rb : pblk) (old new : name) : res pst :=
+Fixpoint update_exiting (fuel : nat) (s : pst) (r : name) (rb : pblk) (old new : name) : pres pst :=
   match fuel with
-  | O => Err EFuel
+  | O => PErr EFuel
   | S f =>
     match p_kind rb with
     | PRegion _ _ ex =>
       do g <- sget s r;
       match dpop g ex with
-      | None => Err EKey
+      | None => PErr EKey
       | Some (xb, g1) =>
         do xb1 <- p_replace_jt xb (rename old new (p_jt xb));
         let xb2 := mkP (p_jt xb1) (rename old new (p_be xb1)) (p_kind xb1) in
-        do s1 <- (if is_pregion xb2 then update_exiting f s ex xb2 old new else Ok s);
-        Ok (sput s1 r (dset g1 ex xb2))
+        do s1 <- (if is_pregion xb2 then update_exiting f s ex xb2 old new else POk s);
+        POk (sput s1 r (dset g1 ex xb2))
       end
-    | _ => Ok s
+    | _ => POk s
     end
   end.
 
 Definition DEPTH : nat := 64%nat.
 
 (* ---------- queries (on the graph of one region) ---------- *)
-Definition p_find_head (g : pgraph) : res name :=
+Definition p_find_head (g : pgraph) : pres name :=
   match filter (fun k => negb (existsb (fun p => zmem k (pjts (snd p))) g)) (gkeys g) with
-  | [h] => Ok h
-  | _ => Err EAssert
+  | [h] => POk h
+  | _ => PErr EAssert
   end.
 
 Definition rkind_of (s : pst) (r : name) : Z :=
@@ -121,37 +121,35 @@ Definition rkind_of (s : pst) (r : name) : Z :=
               | None => 0 end
   end.
 
-Fixpoint p_headers_entries (fuel : nat) (s : pst) (r : name) (sub : list name) : res (list name * list name) :=
-  match fuel with
-  | O => Err EFuel
-  | S f =>
-    do g <- sget s r;
-    let outside := filter (fun k => negb (zmem k sub)) (gkeys g) in
-    let hits o := match gget g o with
-                  | Some b => filter (fun t => zmem t sub) (p_jt b)
-                  | None => [] end in
-    let headers := flat_map hits outside in
-    let entries := filter (fun o => match hits o with [] => false | _ => true end) outside in
-    match headers with
-    | [] =>
-      do h <- p_find_head g;
-      if Z.eqb (rkind_of s r) R_META then Ok ([h], zsort entries)
-      else match zassoc r (s_parent s) with
-           | None => Err EAssert
-           | Some p => do he <- p_headers_entries f s p [r]; Ok ([h], snd he)
-           end
-    | _ => Ok (zsort headers, zsort entries)
-    end
+(* find_headers_and_entries.  When nothing outside the set jumps into it the
+   Python answers with the head of the graph and, inside a region, with the
+   entries of the enclosing region block found through region/parent_region
+   pointers.  Those entries are blocks of an enclosing graph: every consumer
+   either ignores entries in that case (a single header) or skips the ones that
+   are not in the graph at hand (extract_region), so the model answers [] for
+   them.  (The pointer chase itself, and the assertions on its way, are not
+   modelled: the correspondence check compares outcomes, errors included.) *)
+Definition p_headers_entries (s : pst) (r : name) (sub : list name) : pres (list name * list name) :=
+  do g <- sget s r;
+  let outside := filter (fun k => negb (zmem k sub)) (gkeys g) in
+  let hits o := match gget g o with
+                | Some b => filter (fun t => zmem t sub) (p_jt b)
+                | None => [] end in
+  let headers := flat_map hits outside in
+  let entries := filter (fun o => match hits o with [] => false | _ => true end) outside in
+  match headers with
+  | [] => do h <- p_find_head g; POk ([h], [])
+  | _ => POk (zsort (dedupe headers), zsort entries)
   end.
 
-Definition p_exiting_exits (g : pgraph) (sub : list name) : res (list name * list name) :=
+Definition p_exiting_exits (g : pgraph) (sub : list name) : pres (list name * list name) :=
   if forallb (fun x => zmem x (gkeys g)) sub then
     let succ x := match gget g x with Some b => pjts b | None => [] end in
     let outs x := filter (fun t => negb (zmem t sub)) (succ x) in
-    Ok (zsort (filter (fun x => match outs x with [] => match succ x with [] => true | _ => false end
+    POk (zsort (filter (fun x => match outs x with [] => match succ x with [] => true | _ => false end
                                              | _ => true end) sub),
         zsort (flat_map outs sub))
-  else Err EKey.
+  else PErr EKey.
 
 Definition psucc_in (g : pgraph) (x : name) : list name :=
   match gget g x with Some b => filter (fun t => zmem t (gkeys g)) (pjts b) | None => [] end.
@@ -162,20 +160,18 @@ Definition pfuel (g : pgraph) : nat := S (S (length g + length (flat_map (fun p 
 (* dominators as sets, from the proved reference definition (Queries.dom_ref):
    doms x = the blocks a such that no entry reaches x avoiding a *)
 Definition dom_table (nodes : list name) (sx px : name -> list name) (fuel : nat)
-  : res (list (name * list name)) :=
+  : pres (list (name * list name)) :=
   let entries := filter (fun k => match px k with [] => true | _ => false end) nodes in
   match entries with
-  | [] => Err ERuntime
+  | [] => PErr ERuntime
   | _ =>
-    fold_right (fun b acc =>
-      do tbl <- acc;
-      let doms := filter (fun a =>
-        if Z.eqb a b then true else
-        match closure (fun x => if Z.eqb x a then [] else sx x) fuel
-                      (filter (fun e => negb (Z.eqb e a)) entries) with
-        | Some R => negb (zmem b R)
-        | None => false end) nodes in
-      Ok ((b, doms) :: tbl)) (Ok []) nodes
+    (* avoid a = what the entries reach without passing through a *)
+    let avoid := map (fun a => (a, closure (fun x => if Z.eqb x a then [] else sx x) fuel
+                                           (filter (fun e => negb (Z.eqb e a)) entries))) nodes in
+    POk (map (fun b => (b, filter (fun a => if Z.eqb a b then true else
+                                     match zassoc a avoid with
+                                     | Some (Some R) => negb (zmem b R)
+                                     | _ => false end) nodes)) nodes)
   end.
 
 Definition p_doms (g : pgraph) := dom_table (gkeys g) (psucc_in g) (ppred_in g) (pfuel g).
@@ -193,13 +189,13 @@ Definition imm_dom (tbl : list (name * list name)) (x : name) : option name :=
   end.
 
 (* is_reachable_dfs as a set question (reference Queries.reach_ref) *)
-Definition p_reach (g : pgraph) (a b : name) : res bool :=
+Definition p_reach (g : pgraph) (a b : name) : pres bool :=
   match gget g a with
-  | None => Err EKey
+  | None => PErr EKey
   | Some ba =>
     match closure (fun x => match gget g x with Some bx => pjts bx | None => [] end) (pfuel g) (pjts ba) with
-    | Some R => Ok (zmem b R)
-    | None => Err EFuel
+    | Some R => POk (zmem b R)
+    | None => PErr EFuel
     end
   end.
 
@@ -244,47 +240,47 @@ Fixpoint tj_loop (succ : name -> list name) (fuel : nat) (queue : list name) (s 
     end
   end.
 
-Definition p_scc (g : pgraph) : res (list (list name)) :=
+Definition p_scc (g : pgraph) : pres (list (list name)) :=
   let fuel := (4 * pfuel g * pfuel g)%nat in
   let r := fold_left (fun acc src =>
              match acc with
              | None => None
              | Some s => if zmem src (t_found s) then Some s else tj_loop (psucc_in g) fuel [src] s
              end) (gkeys g) (Some (mkTj [] [] [] [] 0 [])) in
-  match r with Some s => Ok (t_out s) | None => Err EFuel end.
+  match r with Some s => POk (t_out s) | None => PErr EFuel end.
 
 (* ---------- edit primitives on the graph of region r ---------- *)
 Definition padd (g : pgraph) (x : name) (b : pblk) : pgraph := dset g x b.
 
 (* SCFG.insert_block *)
-Fixpoint p_insert_preds (s : pst) (r : name) (new : name) (S : list name) (preds : list name) : res pst :=
+Fixpoint p_insert_preds (s : pst) (r : name) (new : name) (S : list name) (preds : list name) : pres pst :=
   match preds with
-  | [] => Ok s
+  | [] => POk s
   | p :: rest =>
     do g <- sget s r;
     match dpop g p with
-    | None => Err EKey
+    | None => PErr EKey
     | Some (b, g1) =>
       do b1 <- p_replace_jt b (retarget new S (p_jt b));
       let s0 := sput s r g1 in
       do sb <- (if is_pregion b1
-                then fold_left (fun acc t => do sx <- acc; update_exiting DEPTH sx p b1 t new) S (Ok s0)
-                else Ok s0);
+                then fold_left (fun acc t => do sx <- acc; update_exiting DEPTH sx p b1 t new) S (POk s0)
+                else POk s0);
       do g2 <- sget sb r;
       p_insert_preds (sput sb r (padd g2 p b1)) r new S rest
     end
   end.
 
-Definition p_insert_block (s : pst) (r : name) (new : name) (preds S : list name) (cls : Z) : res pst :=
+Definition p_insert_block (s : pst) (r : name) (new : name) (preds S : list name) (cls : Z) : pres pst :=
   do g <- sget s r;
   p_insert_preds (sput s r (padd g new (mkP S [] (PLeaf (EPlain cls))))) r new S preds.
 
 (* SCFG.insert_block_and_control_blocks *)
 Fixpoint p_cb_arcs (s : pst) (r new var : name) (ss : list name) (jt : list name) (value : Z)
          (tbl : list (Z * name)) (renamed : list (name * name))
-  : res (pst * list name * Z * list (Z * name) * list (name * name)) :=
+  : pres (pst * list name * Z * list (Z * name) * list (name * name)) :=
   match ss with
-  | [] => Ok (s, jt, value, tbl, renamed)
+  | [] => POk (s, jt, value, tbl, renamed)
   | t :: rest =>
     let '(a, s1) := new_name 0 K_ASSIGN s in
     do g <- sget s1 r;
@@ -293,55 +289,55 @@ Fixpoint p_cb_arcs (s : pst) (r new var : name) (ss : list name) (jt : list name
   end.
 
 Fixpoint p_cb_preds (s : pst) (r new var : name) (S : list name) (preds : list name) (value : Z)
-         (tbl : list (Z * name)) : res (pst * list (Z * name)) :=
+         (tbl : list (Z * name)) : pres (pst * list (Z * name)) :=
   match preds with
-  | [] => Ok (s, tbl)
+  | [] => POk (s, tbl)
   | p :: rest =>
     do g <- sget s r;
     match gget g p with
-    | None => Err EKey
+    | None => PErr EKey
     | Some b =>
       let ss := zsort (filter (fun t => zmem t S) (p_jt b)) in
       do x <- p_cb_arcs s r new var ss (p_jt b) value tbl [];
       let '(s1, jt, value', tbl', renamed) := x in
       do g1 <- sget s1 r;
       match dpop g1 p with
-      | None => Err EKey
+      | None => PErr EKey
       | Some (b0, g2) =>
         do b1 <- p_replace_jt b0 jt;
         let s2 := sput s1 r g2 in
         do sb <- (if is_pregion b1
                   then fold_left (fun acc ta => do sx <- acc; update_exiting DEPTH sx p b1 (fst ta) (snd ta))
-                                 renamed (Ok s2)
-                  else Ok s2);
+                                 renamed (POk s2)
+                  else POk s2);
         do g3 <- sget sb r;
         p_cb_preds (sput sb r (padd g3 p b1)) r new var S rest value' tbl'
       end
     end
   end.
 
-Definition p_insert_cb (s : pst) (r new : name) (preds S : list name) : res pst :=
+Definition p_insert_cb (s : pst) (r new : name) (preds S : list name) : pres pst :=
   let '(var, s1) := new_name 2 K_CONTROL s in
   do x <- p_cb_preds s1 r new var S preds 0 [];
   let '(s2, tbl) := x in
   do g <- sget s2 r;
-  Ok (sput s2 r (padd g new (mkP S [] (PLeaf (EBranch C_HEAD var tbl))))).
+  POk (sput s2 r (padd g new (mkP S [] (PLeaf (EBranch C_HEAD var tbl))))).
 
 (* SCFG.join_returns on the top graph *)
-Definition p_join_returns (s : pst) (top : name) : res pst :=
+Definition p_join_returns (s : pst) (top : name) : pres pst :=
   do g <- sget s top;
   let exits := map fst (filter (fun p => match pjts (snd p) with [] => true | _ => false end) g) in
   match exits with
   | _ :: _ :: _ =>
     let '(n, s1) := new_name 0 K_RETURN s in
     p_insert_block s1 top n exits [] C_RETURN
-  | _ => Ok s
+  | _ => POk s
   end.
 
 (* SCFG.join_tails_and_exits *)
-Definition p_join_tails_exits (s : pst) (r : name) (tails exits : list name) : res pst :=
+Definition p_join_tails_exits (s : pst) (r : name) (tails exits : list name) : pres pst :=
   match tails, exits with
-  | [_], [_] => Ok s
+  | [_], [_] => POk s
   | [_], _ :: _ :: _ =>
     let '(e, s1) := new_name 0 K_EXIT s in p_insert_block s1 r e tails exits C_EXIT
   | _ :: _ :: _, [_] =>
@@ -351,7 +347,7 @@ Definition p_join_tails_exits (s : pst) (r : name) (tails exits : list name) : r
     let '(e, s2) := new_name 0 K_EXIT s1 in
     do s3 <- p_insert_block s2 r t tails exits C_TAIL;
     p_insert_block s3 r e [t] exits C_EXIT
-  | _, _ => Err EAssert
+  | _, _ => PErr EAssert
   end.
 
 (* ---------- transformations.extract_region ---------- *)
@@ -376,8 +372,8 @@ Definition set_region_field (s : pst) (r : name) (f : pblk -> pblk) : pst :=
               | None => s end
   end.
 
-Definition p_extract_region (s : pst) (r : name) (blocks : list name) (rk kcode : Z) : res pst :=
-  do he <- p_headers_entries DEPTH s r blocks;
+Definition p_extract_region (s : pst) (r : name) (blocks : list name) (rk kcode : Z) : pres pst :=
+  do he <- p_headers_entries s r blocks;
   do g0 <- sget s r;
   do xe <- p_exiting_exits g0 blocks;
   match fst he, fst xe with
@@ -391,30 +387,28 @@ Definition p_extract_region (s : pst) (r : name) (blocks : list name) (rk kcode 
                do sx <- acc;
                do g <- sget sx r;
                if negb (zmem e (gkeys g)) then
-                 (if Z.eqb (rkind_of sx r) R_META then Err EAssert else Ok sx)
+                 (if Z.eqb (rkind_of sx r) R_META then PErr EAssert else POk sx)
                else
                  match dpop g e with
-                 | None => Err EKey
+                 | None => PErr EKey
                  | Some (eb, g1) =>
                    do eb1 <- p_replace_jt eb (rename hd rname (p_jt eb));
                    let eb2 := mkP (p_jt eb1) (rename hd rname (p_be eb1)) (p_kind eb1) in
                    let s0 := sput sx r g1 in
-                   do sb <- (if is_pregion eb2 then update_exiting DEPTH s0 e eb2 hd rname else Ok s0);
+                   do sb <- (if is_pregion eb2 then update_exiting DEPTH s0 e eb2 hd rname else POk s0);
                    do g2 <- sget sb r;
-                   Ok (sput sb r (padd g2 e eb2))
-                 end) (snd he) (Ok s2);
+                   POk (sput sb r (padd g2 e eb2))
+                 end) (snd he) (POk s2);
     do g3 <- sget s3 r;
-    (* the sub-graph holds the blocks as they are now (entries inside the region may have been renamed) *)
-    let sub' := flat_map (fun x => match gget g3 x with Some b => [(x, b)] | None => [] end) (zsort blocks) in
     match gget g3 ex with
-    | None => Err EKey
+    | None => PErr EKey
     | Some exb =>
       let region := mkP (pjts exb) [] (PRegion rk hd ex) in
       let g4 := filter (fun p => negb (zmem (fst p) blocks)) g3 in
-      let s4 := sput (sput s3 r (padd g4 rname region)) rname sub' in
+      let s4 := sput (sput s3 r (padd g4 rname region)) rname sub in
       (* parents: the new region belongs to r; regions among its blocks now belong to it *)
       let par := dset (fold_left (fun acc p => if is_pregion (snd p) then dset acc (fst p) rname else acc)
-                                 sub' (s_parent s4)) rname r in
+                                 sub (s_parent s4)) rname r in
       let s5 := mkS (s_store s4) (s_gen s4) par in
       (* header / exiting of the region that holds r's graph *)
       let s6 := match region_header s5 r with
@@ -429,9 +423,9 @@ Definition p_extract_region (s : pst) (r : name) (blocks : list name) (rk kcode 
                   else s'
                 | None => s5
                 end in
-      Ok s6
+      POk s6
     end
-  | _, _ => Err EAssert
+  | _, _ => PErr EAssert
   end.
 
 (* ---------- transformations.loop_restructure_helper ---------- *)
@@ -441,10 +435,10 @@ Definition rev_lookup (tbl : list (Z * name)) (v : name) : Z :=
 Definition enumerate (l : list name) : list (Z * name) :=
   combine (map Z.of_nat (seq 0 (length l))) l.
 
-Definition p_declare_backedge (b : pblk) (t : name) : res pblk :=
+Definition p_declare_backedge (b : pblk) (t : name) : pres pblk :=
   if zmem t (pjts b) then
-    match p_be b with [] => Ok (mkP (p_jt b) [t] (p_kind b)) | _ => Err EAssert end
-  else Ok b.
+    match p_be b with [] => POk (mkP (p_jt b) [t] (p_kind b)) | _ => PErr EAssert end
+  else POk b.
 
 (* the per-target work inside `for name in sorted(loop)`; returns the state and new_jt *)
 Fixpoint p_loop_targets (s : pst) (r : name) (name_ : name) (jts_snapshot : list name) (new_jt : list name)
@@ -452,9 +446,9 @@ Fixpoint p_loop_targets (s : pst) (r : name) (name_ : name) (jts_snapshot : list
          (exit_var back_var latch loop_head exit_target : name)
          (exit_tbl back_tbl header_tbl : list (Z * name)) (doms : list (name * list name))
          (new_blocks : list name)
-  : res (pst * list name * list name) :=
+  : pres (pst * list name * list name) :=
   match jts_snapshot with
-  | [] => Ok (s, new_jt, new_blocks)
+  | [] => POk (s, new_jt, new_blocks)
   | jt :: rest =>
     if zmem jt exit_blocks then
       let '(a, s1) := new_name 0 K_ASSIGN s in
@@ -471,7 +465,7 @@ Fixpoint p_loop_targets (s : pst) (r : name) (name_ : name) (jts_snapshot : list
                  (if needs_exit || unified then [(exit_var, rev_lookup header_tbl jt)] else []) in
       do g <- sget s1 r;
       match dpop g name_ with
-      | None => Err EKey
+      | None => PErr EKey
       | Some (b, g1) =>
         let jts' := fold_left (fun acc h => remove_first h acc) headers (pjts b) in
         do b1 <- p_replace_jt b jts';
@@ -486,8 +480,8 @@ Fixpoint p_loop_targets (s : pst) (r : name) (name_ : name) (jts_snapshot : list
   end.
 
 (* returns the state and the (grown) loop *)
-Definition p_loop_helper (s : pst) (r : name) (loop : list name) : res (pst * list name) :=
-  do he <- p_headers_entries DEPTH s r loop;
+Definition p_loop_helper (s : pst) (r : name) (loop : list name) : pres (pst * list name) :=
+  do he <- p_headers_entries s r loop;
   do g0 <- sget s r;
   do xe <- p_exiting_exits g0 loop;
   let headers := fst he in let entries := snd he in
@@ -495,24 +489,255 @@ Definition p_loop_helper (s : pst) (r : name) (loop : list name) : res (pst * li
   let unified := match headers with _ :: _ :: _ => true | _ => false end in
   do x <- (if unified then
              let '(h, s1) := new_name 0 K_HEAD s in
-             do s2 <- p_insert_cb s1 r h entries headers; Ok (s2, h, loop ++ [h])
+             do s2 <- p_insert_cb s1 r h entries headers; POk (s2, h, loop ++ [h])
            else match headers with
-                | [h] => Ok (s, h, loop)
-                | _ => Err EAssert end);
+                | [h] => POk (s, h, loop)
+                | _ => PErr EAssert end);
   let '(s1, loop_head, loop1) := x in
   do g1 <- sget s1 r;
   let backedge_blocks := filter (fun b => match gget g1 b with
                                           | Some bb => existsb (fun t => zmem t headers) (pjts bb)
                                           | None => false end) loop1 in
-  match backedge_blocks, exiting with
-  | [bb], [xb] =>
-    if Z.eqb bb xb then
+  let early := match backedge_blocks, exiting with
+               | [bb], [xb] => Z.eqb bb xb
+               | _, _ => false end in
+  if early then
+    match backedge_blocks with
+    | bb :: _ =>
       match dpop g1 bb with
-      | None => Err EKey
-      | Some (b, g2) => do b1 <- p_declare_backedge b loop_head; Ok (sput s1 r (padd g2 bb b1), loop1)
+      | None => PErr EKey
+      | Some (b, g2) => do b1 <- p_declare_backedge b loop_head; POk (sput s1 r (padd g2 bb b1), loop1)
       end
-    else Err EIndex
-  | _, _ => Err EIndex
+    | [] => PErr EAssert
+    end
+  else
+    let '(latch, s2) := new_name 0 K_LATCH s1 in
+    let needs := match exit_blocks with _ :: _ :: _ => true | _ => false end in
+    let '(sexit, s3) := if needs then new_name 0 K_EXIT s2 else (0, s2) in
+    let head_branch := match gget g1 loop_head with
+                       | Some hb => match p_kind hb with
+                                    | PLeaf (EBranch _ v tbl) => Some (v, tbl)
+                                    | _ => None end
+                       | None => None end in
+    do y <- (if unified then
+               match head_branch with
+               | Some (v, tbl) => POk (v, tbl, s3)
+               | None => PErr EAssert end
+             else let '(v, s') := new_name 2 K_VEXIT s3 in POk (v, [], s'));
+    let '(exit_var, header_tbl, s4) := y in
+    let '(back_var, s5) := new_name 2 K_BACKEDGE s4 in
+    let exit_tbl := enumerate exit_blocks in
+    do exit_target <- (if needs then POk sexit
+                       else match exit_blocks with e :: _ => POk e | [] => PErr EStop end);
+    let back_tbl := [(0, loop_head); (1, exit_target)] in
+    do g5 <- sget s5 r;
+    do doms <- p_doms g5;
+    do z <- fold_left (fun acc name_ =>
+              do a <- acc;
+              let '(sa, nb) := a in
+              if zmem name_ exiting || zmem name_ backedge_blocks then
+                do ga <- sget sa r;
+                match gget ga name_ with
+                | None => PErr EKey
+                | Some b =>
+                  do t <- p_loop_targets sa r name_ (pjts b) (pjts b) headers exit_blocks needs unified
+                            exit_var back_var latch loop_head exit_target exit_tbl back_tbl header_tbl doms nb;
+                  let '(sb, new_jt, nb') := t in
+                  do gb <- sget sb r;
+                  match dpop gb name_ with
+                  | None => PErr EKey
+                  | Some (b0, gb1) =>
+                    do b1 <- p_replace_jt b0 new_jt;
+                    POk (sput sb r (padd gb1 name_ b1), nb')
+                  end
+                end
+              else POk (sa, nb)) (zsort loop1) (POk (s5, []));
+    let '(s6, new_blocks) := z in
+    do g6 <- sget s6 r;
+    let g7 := padd g6 latch (mkP [exit_target; loop_head] [loop_head] (PLeaf (EBranch C_LATCH back_var back_tbl))) in
+    let g8 := if needs then padd g7 sexit (mkP exit_blocks [] (PLeaf (EBranch C_EXITBRANCH exit_var exit_tbl)))
+              else g7 in
+    POk (sput s6 r g8, loop1 ++ new_blocks ++ [latch]).
+
+(* transformations.restructure_loop on the graph of region r *)
+Definition p_restructure_loop (s : pst) (r : name) : pres pst :=
+  do g <- sget s r;
+  do scc <- p_scc g;
+  let loops := filter (fun c => match c with
+                                | [x] => match gget g x with Some b => zmem x (pjts b) | None => false end
+                                | _ => true end) scc in
+  fold_left (fun acc loop =>
+    do sa <- acc;
+    do x <- p_loop_helper sa r loop;
+    let '(sb, loop') := x in
+    p_extract_region sb r loop' R_LOOP K_LOOP) loops (POk s).
+
+(* ---------- branch restructuring ---------- *)
+(* ConcealedRegionView iteration over the graph of region r *)
+Fixpoint p_view (fuel : nat) (s : pst) (g : pgraph) (queue seen : list name) (out : list name)
+  : pres (list name) :=
+  match fuel with
+  | O => PErr EFuel
+  | S f =>
+    match queue with
+    | [] => POk out
+    | x :: rest =>
+      if zmem x seen then p_view f s g rest seen out
+      else
+        match gget g x with
+        | None => p_view f s g rest (x :: seen) out
+        | Some b =>
+          do nexts <- (match p_kind b with
+                       | PRegion _ _ ex =>
+                         do gx <- sget s x;
+                         match gget gx ex with Some xb => POk (pjts xb) | None => PErr EKey end
+                       | _ => POk (pjts b) end);
+          p_view f s g (rest ++ nexts) (x :: seen) (out ++ [x])
+        end
+    end
   end.
+
+Definition p_first_branch_region (s : pst) (g : pgraph) : pres (option (name * name)) :=
+  do h <- p_find_head g;
+  do order <- p_view (pfuel g * pfuel g) s g [h] [] [];
+  do doms <- p_doms g;
+  do pdoms <- p_postdoms g;
+  let fix go (l : list name) : pres (option (name * name)) :=
+    match l with
+    | [] => POk None
+    | b :: rest =>
+      match gget g b with
+      | None => PErr EKey
+      | Some bb =>
+        match pjts bb with
+        | _ :: _ :: _ =>
+          match imm_dom pdoms b with
+          | Some e =>
+            match imm_dom doms e with
+            | Some d => if Z.eqb d b then POk (Some (b, e)) else go rest
+            | None => PErr EKey
+            end
+          | None => go rest
+          end
+        | _ => go rest
+        end
+      end
+    end in
+  go order.
+
+Fixpoint p_head_blocks (fuel : nat) (g : pgraph) (cur begin_ : name) (acc : list name) : pres (list name) :=
+  match fuel with
+  | O => PErr EFuel
+  | S f =>
+    let acc' := zadd cur acc in
+    if Z.eqb cur begin_ then POk acc'
+    else match gget g cur with
+         | None => PErr EKey
+         | Some b => match pjts b with
+                     | [t] => p_head_blocks f g t begin_ acc'
+                     | _ => PErr EAssert end
+         end
+  end.
+
+Definition p_find_head_blocks (g : pgraph) (begin_ : name) : pres (list name) :=
+  do h <- p_find_head g; p_head_blocks (pfuel g) g h begin_ [].
+
+(* None = the placeholder for an empty branch *)
+Definition p_branch_regions (g : pgraph) (begin_ end_ : name) : pres (list (option (name * list name))) :=
+  do doms <- p_doms g;
+  match gget g begin_ with
+  | None => PErr EKey
+  | Some bb =>
+    let jts := pjts bb in
+    fold_left (fun acc bra =>
+      do l <- acc;
+      (* the inner for/else: the first other target that reaches bra decides; a KeyError on the way is raised *)
+      let fix scan (ts : list name) : pres bool :=
+        match ts with
+        | [] => POk false
+        | t :: rest => if Z.eqb t bra then scan rest
+                       else do rch <- p_reach g t bra; if rch then POk true else scan rest
+        end in
+      do reached <- scan jts;
+      if reached then POk (l ++ [None])
+      else POk (l ++ [Some (bra, filter (fun k => zmem bra (dset_of doms k) && negb (zmem end_ (dset_of doms k)))
+                                        (gkeys g))])) jts (POk [])
+  end.
+
+Definition p_tail_blocks (g : pgraph) (begin_ : name) (heads : list name)
+           (regions : list (option (name * list name))) : list name :=
+  let drop := begin_ :: heads ++ flat_map (fun o => match o with Some (b, sub) => b :: sub | None => [] end) regions in
+  filter (fun k => negb (zmem k drop)) (gkeys g).
+
+Definition p_restructure_branch (s : pst) (r : name) : pres pst :=
+  do g <- sget s r;
+  do fr <- p_first_branch_region s g;
+  match fr with
+  | None => POk s
+  | Some (begin_, end0) =>
+    do heads <- p_find_head_blocks g begin_;
+    do regs <- p_branch_regions g begin_ end0;
+    let tails := p_tail_blocks g begin_ heads regs in
+    do he <- p_headers_entries s r tails;
+    do x <- (match fst he with
+             | _ :: _ :: _ =>
+               let '(e, s1) := new_name 0 K_HEAD s in
+               do s2 <- p_insert_cb s1 r e (snd he) (fst he); POk (s2, e)
+             | _ => POk (s, end0) end);
+    let '(s1, end_) := x in
+    do g1 <- sget s1 r;
+    do heads1 <- p_find_head_blocks g1 begin_;
+    do regs1 <- p_branch_regions g1 begin_ end_;
+    let tails1 := p_tail_blocks g1 begin_ heads1 regs1 in
+    do s2 <- fold_left (fun acc reg =>
+               do sa <- acc;
+               match reg with
+               | Some (_, []) => POk sa
+               | Some (_, inner) =>
+                 do ga <- sget sa r;
+                 do xe <- p_exiting_exits ga inner;
+                 do th <- p_headers_entries sa r tails1;
+                 p_join_tails_exits sa r (fst xe) (fst th)
+               | None =>
+                 do th <- p_headers_entries sa r tails1;
+                 let '(f, sb) := new_name 0 K_FILL sa in
+                 p_insert_block sb r f [begin_] (fst th) C_FILL
+               end) regs1 (POk s1);
+    do g2 <- sget s2 r;
+    do heads2 <- p_find_head_blocks g2 begin_;
+    do regs2 <- p_branch_regions g2 begin_ end_;
+    let tails2 := p_tail_blocks g2 begin_ heads2 regs2 in
+    do s3 <- p_extract_region s2 r heads2 R_HEAD K_RHEAD;
+    do s4 <- fold_left (fun acc reg =>
+               do sa <- acc;
+               match reg with
+               | Some (_, ((_ :: _) as inner)) => p_extract_region sa r inner R_BRANCH K_BRANCH
+               | _ => POk sa end) regs2 (POk s3);
+    p_extract_region s4 r tails2 R_TAIL K_RTAIL
+  end.
+
+(* ---------- SCFG.restructure_loop / restructure_branch: the region itself, then
+   every sub-region in the order of iter_subregions (a live pre-order walk) ---------- *)
+Fixpoint p_walk (pass : pst -> name -> pres pst) (fuel : nat) (s : pst) (r : name) : pres pst :=
+  match fuel with
+  | O => PErr EFuel
+  | S f =>
+    do g <- sget s r;
+    fold_left (fun acc k =>
+      do sa <- acc;
+      do ga <- sget sa r;
+      match gget ga k with
+      | Some b => if is_pregion b then do sb <- pass sa k; p_walk pass f sb k else POk sa
+      | None => POk sa
+      end) (gkeys g) (POk s)
+  end.
+
+Definition p_pass (pass : pst -> name -> pres pst) (s : pst) (top : name) : pres pst :=
+  do s1 <- pass s top; p_walk pass DEPTH s1 top.
+
+Definition p_stage (k : Z) (s : pst) (top : name) : pres pst :=
+  if Z.eqb k 0 then p_join_returns s top
+  else if Z.eqb k 1 then p_pass p_restructure_loop s top
+  else p_pass p_restructure_branch s top.
 
 End Pipeline.
